@@ -16,7 +16,7 @@
    write_section_headers and the final header overwrite).
    Not modelled: ET_DYN (.dynamic, PT_DYNAMIC), create_hash_table, DWARF sections. *)
 From PV Require Import Lib.Py Gen.Tab_elf Model.ElfWriter Spec.ElfSpec.
-From PV Require Import Proofs.C17_codec Proofs.C17_recover Proofs.C17_bounded Proofs.C17_file Proofs.C17_tables.
+From PV Require Import Proofs.C17_codec Proofs.C17_recover Proofs.C17_bounded Proofs.C17_file Proofs.C17_tables Proofs.C17_contents.
 From Coq Require Import String.
 Open Scope Z_scope.
 
@@ -251,6 +251,66 @@ Theorem c17_whole_file_tables : forall ht machine o et bs,
                      /\ omap (mk_phdr (ht_bits ht =? 64)) rawp = Some (map phdr_of phs)).
 Proof. exact export_tables. Qed.
 Print Assumptions c17_whole_file_tables.
+
+(* ---- wave 4: WHOLE FILE, every object, tables AND contents.  Besides everything c17_whole_file_tables states,
+        in the FINAL file: the .strtab header (in the recorded header list) designates exactly the string table [st];
+        the .symtab header designates the null entry followed by exactly the serialised symbol records of the object's
+        symbols in locals-first order (fields as prescribed, names in [st]); for relocatable files every
+        .rela<section> header designates exactly the serialised RELA records of that section's relocations, in order,
+        with sh_info = the section's number.  Each .rela table has its own recorded offset (rela_fact is per name). ---- *)
+Theorem c17_whole_file_contents : forall ht machine o et bs,
+  export_object ht machine o et = Ok bs -> image_names_ok o -> ht_ok ht ->
+  exists eh hs hs' phs sn st,
+    (exists raw, read_struct (ht_big ht) (ehdr_layout (ht_bits ht =? 64)) bs 16 = Some raw
+                 /\ mk_ehdr (ht_bits ht =? 64) (ht_big ht) raw = Some (ehdr_of (ht_bits ht =? 64) (ht_big ht) eh))
+    /\ hget eh "e_type" = et /\ hget eh "e_machine" = machine /\ hget eh "e_version" = 1
+    /\ hget eh "e_shnum" = len hs + 1
+    /\ hget eh "e_shentsize" = Z.of_nat (lsize (shdr_layout (ht_bits ht =? 64)))
+    /\ hget eh "e_ehsize" = 16 + Z.of_nat (lsize (ehdr_layout (ht_bits ht =? 64)))
+    /\ hget eh "e_phnum" = len phs
+    /\ sget sn ".strtab"%string = Some (hget eh "e_shstrndx")
+    /\ Forall2 (fun h h' => patch sn h = Ok h') hs hs'
+    /\ (exists raw0 raw,
+          read_struct (ht_big ht) (shdr_layout (ht_bits ht =? 64)) bs (hget eh "e_shoff") = Some raw0
+          /\ mk_shdr raw0 = Some (shdr_of [])
+          /\ read_table (ht_big ht) (shdr_layout (ht_bits ht =? 64)) bs
+               (hget eh "e_shoff" + Z.of_nat (lsize (shdr_layout (ht_bits ht =? 64)))) (len hs) = Some raw
+          /\ omap mk_shdr raw = Some (map shdr_of hs'))
+    /\ (exists rawp, read_table (ht_big ht) (phdr_layout (ht_bits ht =? 64)) bs
+                       (16 + Z.of_nat (lsize (ehdr_layout (ht_bits ht =? 64)))) (len phs) = Some rawp
+                     /\ omap (mk_phdr (ht_bits ht =? 64)) rawp = Some (map phdr_of phs))
+    /\ (exists hstr, In hstr hs /\ hget hstr "sh_type" = 3 /\ hget hstr "sh_size" = len st
+                     /\ at_ bs (hget hstr "sh_offset") st)
+    /\ (exists hsym sn2, In hsym hs /\ symtab_fact ht o sn2 bs st hsym)
+    /\ (et = et_rel -> exists sm sn3, forall name, In name (sorted_names (map mr_section (mo_relocs o))) ->
+           exists h, In h hs /\ rela_fact ht o sm sn3 bs name h).
+Proof. exact export_whole. Qed.
+Print Assumptions c17_whole_file_contents.
+
+(* ... so the gABI reader, applied to the final file at the .symtab header, returns exactly the symbol records
+   (any number), accepts the locals-first order with the recorded sh_info, and resolves every st_name in [st] *)
+Theorem c17_symtab_in_file : forall ht, ht_ok ht -> forall o sn bs st h, symtab_fact ht o sn bs st h ->
+  exists es raw,
+    read_table (ht_big ht) (sym_layout (ht_bits ht =? 64)) bs
+               (hget h "sh_offset" + hget h "sh_entsize") (len es) = Some raw
+    /\ omap (mk_sym (ht_bits ht =? 64)) raw = Some (map sym_of es)
+    /\ Forall2 (symrel o sn st) (ordered_symbols o) es
+    /\ locals_first (hget h "sh_info") (sym_of [] :: map sym_of es) = true.
+Proof. exact symtab_fact_read. Qed.
+Print Assumptions c17_symtab_in_file.
+
+Theorem c17_rela_in_file : forall ht, ht_ok ht -> forall o sm sn bs name h, rela_fact ht o sm sn bs name h ->
+  exists es raw,
+    read_table (ht_big ht) (rela_layout (ht_bits ht =? 64)) bs (hget h "sh_offset") (len es) = Some raw
+    /\ omap (mk_rela (ht_bits ht =? 64)) raw = Some (map (rela_of (ht_bits ht =? 64)) es)
+    /\ Forall2 (relrel ht o sm) (group o name) es /\ sget sn name = Some (hget h "sh_info").
+Proof. exact rela_fact_read. Qed.
+Print Assumptions c17_rela_in_file.
+
+Theorem c17_strtab_in_file : forall o sn st y e, symrel o sn st y e -> nul_free (my_name y) = true ->
+  strtab_get st (hget e "st_name") = Some (str_bytes (my_name y)).
+Proof. exact symrel_name. Qed.
+Print Assumptions c17_strtab_in_file.
 
 (* ---- whole files, bounded: 82 relocatable + 320 executable objects (4 little-endian machines; 0-3 sections,
         0-5 symbols local/global/undefined, 0-4 relocations on x86_64, 0-2 images, two base addresses):
